@@ -29,6 +29,13 @@ def check(prog, ctx):
     if not any(f[2] == "hard" for f in prog.get("faults") or []):
         r, exp = oracles.reference(prog, env)
         viol += oracles.compare_with_reference(env, r, exp, "C05.received")
+    if not viol:
+        env_b = oracles.again(prog, env)
+        if env_b is not None:
+            engine.event_grammar(env_b)
+            engine.item_checks(env_b)
+            viol += oracles.second(oracles.clauses(env_b, "C05."))
+            ctx.label("run-twice-on-one-scheduler")
     nested = sum(1 for e in env.log if e[0] == "flush") > 0 and not env.yield_only
     ctx.label("candidates>=2-kinds", env.ncands >= 2)
     ctx.label("flush-fault-hit", any(isinstance(a, list) for a in env.item_action.values()))
